@@ -42,7 +42,7 @@ func scenFrom(name string, cfg world.Config, pre []Op, bud Budget, al *Alphabet,
 		desc = map[string]any{}
 	}
 	desc["alphabet"] = al.Describe()
-	return &Scenario{Name: name, Cfg: cfg, Preamble: pre, Budget: bud, Menu: func(st *ref.State, b Budget) []Op { return al.Menu(st, b) }, Params: desc}
+	return &Scenario{al: al, Name: name, Cfg: cfg, Preamble: pre, Budget: bud, Menu: func(st *ref.State, b Budget) []Op { return al.Menu(st, b) }, Params: desc}
 }
 
 func stdBalances() map[string]sdk.Coins {
@@ -210,4 +210,158 @@ func S3(tier string, fees bool) *Scenario {
 		bud = Budget{"create": 1, "allow": 1, "update": 1, "bid": 4, "mod": 1, "cancel": 1, "block": 6, "tick": 1}
 	}
 	return scenFrom("S3-multi-"+fn, cfg, pre, bud, al, nil)
+}
+
+// S4: order-book enumeration. Preamble: an open batch auction (no extension, so the block at its end
+// time settles it) with caps capA/capB for bid1/bid2 (bid3 has the full supply in thorough); then
+// every book of at most N bids placed with real PlaceBid, optionally one cap lowered after the bids,
+// then the settlement block.
+func S4(tier string, supply, capA, capB string, update bool) *Scenario {
+	cfg := world.Config{Balances: map[string]sdk.Coins{
+		"auc1": coins("25acoin"), "bid1": coins("200bcoin"), "bid2": coins("200bcoin"), "bid3": coins("200bcoin"),
+	}, Params: params("", "", 1)}
+	pre := []Op{
+		{Kind: "create_batch", Signer: "auc1", StartPrice: "1", MinPrice: "0.1", Sell: supply + "acoin", PayDenom: "bcoin", StartK: 0, EndK: 2, MaxExt: 0, Rate: "0.5"},
+		{Kind: "add_allowed", AID: 0, Bidder: "bid1", Max: capA},
+		{Kind: "add_allowed", AID: 0, Bidder: "bid2", Max: capB},
+	}
+	al := &Alphabet{
+		Bidders: []string{"bid1", "bid2"}, AllowBidders: []string{"bid1"},
+		BatchPrices: []string{"1", "2", "10"}, WorthAmts: []string{"1", "5"}, ManyAmts: []string{"1", "3"},
+		MaxK: 2, BlockStops: []int{2},
+	}
+	bud := Budget{"bid": 3, "block": 1}
+	if update {
+		al.UpdateCaps = []string{"1"}
+		bud["update"] = 1
+	}
+	if tier == "thorough" {
+		pre = append(pre, Op{Kind: "add_allowed", AID: 0, Bidder: "bid3", Max: supply})
+		al.Bidders = []string{"bid1", "bid2", "bid3"}
+		al.BatchPrices = []string{"1", "2", "10", "0.333333333333333333", "1.5"}
+		al.WorthAmts = []string{"1", "5", "12"}
+		al.ManyAmts = []string{"1", "3", "6"}
+		bud["bid"] = 4
+	}
+	return scenFrom(fmt.Sprintf("S4-orderbook-s%s-caps%s,%s-upd%v", supply, capA, capB, update), cfg, pre, bud, al, nil)
+}
+
+func bookScenarios(tier string) []*Scenario {
+	out := []*Scenario{S4(tier, "5", "2", "5", false), S4(tier, "10", "10", "10", false), S4(tier, "5", "5", "3", true)}
+	return out
+}
+
+// S5: vesting. A fixed-price auction at price 1 (proceeds = sum of paying-denominated bids, so any
+// proceeds 0..12 can be produced by one or two bids) with a schedule of n instalments; blocks hit,
+// skip and overshoot every release instant. Timeline: end 2, releases 3,4,5(,6).
+func S5(tier string, weights []string, name string) *Scenario {
+	cfg := world.Config{Balances: stdBalances(), Params: params("", "", 1)}
+	var sc []Sched
+	for i, w := range weights {
+		sc = append(sc, Sched{K: 3 + i, W: w})
+	}
+	pre := []Op{
+		{Kind: "create_fixed", Signer: "auc1", StartPrice: "1", Sell: "20acoin", PayDenom: "bcoin", StartK: 0, EndK: 2, Sched: sc},
+		{Kind: "add_allowed", AID: 0, Bidder: "bid1", Max: "20"},
+	}
+	al := &Alphabet{
+		Bidders: []string{"bid1"}, FixedAmts: []string{"1", "2", "3", "5"},
+		MaxK: 3 + len(weights) + 1,
+	}
+	bud := Budget{"bid": 2, "block": len(weights) + 2, "tick": 1}
+	if tier == "thorough" {
+		al.FixedAmts = []string{"1", "2", "3", "4", "5", "6", "7", "8", "9", "10"}
+	} else {
+		al.FixedAmts = []string{"1", "2", "3", "4", "5", "6", "7"}
+	}
+	s := scenFrom("S5-vesting-"+name, cfg, pre, bud, al, map[string]any{"weights": weights})
+	// only paying-denominated bids (price 1): keep the menu small
+	inner := s.Menu
+	s.Menu = func(st *ref.State, b Budget) []Op {
+		var out []Op
+		for _, op := range inner(st, b) {
+			if op.Kind == "place" && op.Denom != "bcoin" {
+				continue
+			}
+			out = append(out, op)
+		}
+		return out
+	}
+	return s
+}
+
+func vestingScenarios(tier string) []*Scenario {
+	out := []*Scenario{
+		S5(tier, []string{"1"}, "n1"),
+		S5(tier, []string{"0.5", "0.5"}, "n2-halves"),
+		S5(tier, []string{"0.333333333333333333", "0.333333333333333333", "0.333333333333333334"}, "n3-thirds"),
+		S5(tier, []string{"0.000000000000000001", "0.999999999999999999"}, "n2-tiny"),
+	}
+	{
+		out = append(out,
+			S5(tier, []string{"0.25", "0.25", "0.25", "0.25"}, "n4-quarters"),
+			S5(tier, []string{"0.999999999999999999", "0.000000000000000001"}, "n2-tiny-last"),
+			S5(tier, []string{"0.1", "0.2", "0.3", "0.4"}, "n4-ramp"),
+			S5(tier, []string{"0.5", "0.25", "0.25"}, "n3-half-first"),
+		)
+	}
+	return out
+}
+
+// withRejectsTerminal returns the scenario with representative invalid ops also offered on vesting,
+// finished and cancelled auctions. Only scenarios built by scenFrom over an *Alphabet support it.
+func (s *Scenario) withRejectsTerminal() *Scenario {
+	if s.al != nil {
+		s.al.RejectsTerm = true
+		s.al.Rejects = true
+		s.Name += "+rejects"
+	}
+	return s
+}
+
+func (s *Scenario) withModRejects() *Scenario {
+	if s.al != nil {
+		s.al.ModRejects = true
+		s.al.Rejects = true
+		s.Name += "+modrejects"
+	}
+	return s
+}
+
+// S2c: extension rule. An open batch auction with rate / period variants; the order book evolves
+// between end times so that the matched count rises, stays, falls by exactly the rate, by more, to
+// zero (cap updates and new bids change the count; many-bids of 1 coin make counts easy to steer).
+func S2c(tier string, rate string, period uint32) *Scenario {
+	cfg := world.Config{Balances: stdBalances(), Params: params("", "", period)}
+	pre := []Op{
+		{Kind: "create_batch", Signer: "auc1", StartPrice: "1", MinPrice: "0.5", Sell: "4acoin", PayDenom: "bcoin", StartK: 0, EndK: 2, MaxExt: 2, Rate: rate},
+		{Kind: "add_allowed", AID: 0, Bidder: "bid1", Max: "4"},
+		{Kind: "add_allowed", AID: 0, Bidder: "bid2", Max: "4"},
+	}
+	al := &Alphabet{
+		Bidders: []string{"bid1", "bid2"}, AllowBidders: []string{"bid1", "bid2"},
+		UpdateCaps:  []string{"1"},
+		BatchPrices: []string{"1", "2"}, ManyAmts: []string{"1", "2"},
+		ModPrices: []string{"3"},
+		MaxK:      7,
+	}
+	switch period {
+	case 0:
+		al.BlockStops = []int{2, 3}
+	case 1:
+		al.BlockStops = []int{2, 3, 4, 5}
+	default:
+		al.BlockStops = []int{2, 3, 4, 5, 6, 7}
+	}
+	bud := Budget{"update": 1, "bid": 4, "mod": 1, "block": 4, "tick": 2}
+	if tier != "thorough" {
+		bud = Budget{"update": 1, "bid": 3, "mod": 1, "block": 4, "tick": 0}
+		if period == 0 {
+			bud["tick"] = 2
+		}
+		if period == 2 {
+			al.BlockStops = []int{2, 4, 5, 6}
+		}
+	}
+	return scenFrom(fmt.Sprintf("S2c-extension-rate%s-period%d", rate, period), cfg, pre, bud, al, nil)
 }
